@@ -1,3 +1,297 @@
-import PybtexModel.Model.Basic
+/-
+C20 — `.aux` files are read faithfully: citations, style, data, nested inputs.
+
+Property theorems only.  The model of `pybtex/auxfile.py` is `Model/AuxFile.lean` (`parse fs fuel p`
+= `pybtex.auxfile.parse_file(p)` under `errors.capture()` on the file system `fs`), what a
+document means is `Spec/AuxFile.lean` (`events`, `citations`, `style`, `data`, `reports`, `fatal`),
+the lemmas are in `Lemmas/AuxFile.lean`.
+
+All statements are for every file system `fs : Path → Option (List Str)` (files of any length,
+any lines), every nesting depth `d`, every start file.  `closedDepth fs d p` is the decidable
+well-formedness condition "reading `p` never nests more than `d` files deep and every included file
+exists"; `depthOk` is the same without the existence requirement.  Inclusion cycles are outside
+the property (Python recurses until it fails).
+-/
+import PybtexModel.Lemmas.AuxFile
+
 namespace Pybtex.Props
+open Pybtex Pybtex.Aux Pybtex.Aux.Spec
+
+/-! ### the regular expression -/
+
+/-- The one regular expression of the parser classifies every line exactly as the specification
+does (`Spec.classify`); and a line has argument `arg` for the command `name` exactly when it reads
+`\name{arg}tail rest`, with no newline in `arg` and `tail`, no `}` in `tail` (so `arg` ends at the
+LAST `}` of the line), and `rest` empty or starting at a newline. -/
+theorem C20_command_shape (line : Str) :
+    Spec.classify line =
+      (match matchCommand line with
+       | none => .other
+       | some (.citation, v) => .citation (splitComma v)
+       | some (.bibstyle, v) => .bibstyle v
+       | some (.bibdata, v) => .bibdata (splitComma v)
+       | some (.input, v) => .input v) ∧
+    (∀ name arg, Spec.argOf name line = some arg ↔
+      ∃ tail rest, line = '\\' :: name ++ '{' :: arg ++ '}' :: tail ++ rest ∧
+        '\n' ∉ arg ∧ '\n' ∉ tail ∧ '}' ∉ tail ∧ (rest = [] ∨ ∃ r, rest = '\n' :: r)) := by
+  refine ⟨?_, fun name arg => argOf_shape name line arg⟩
+  rw [classify_eq]
+  cases matchCommand line with
+  | none => rfl
+  | some cv => obtain ⟨c, v⟩ := cv; cases c <;> rfl
+
+/-- near misses and the greedy group, on concrete lines -/
+theorem C20_command_shape_nonvacuous :
+    matchCommand "\\citation{a}{b} % x".toList = some (.citation, "a}{b".toList) ∧
+    matchCommand "\\citationx{q}".toList = none ∧
+    matchCommand "\\citation{nobrace".toList = none ∧
+    matchCommand " \\citation{a}".toList = none ∧
+    Spec.classify "\\@input{chap1.aux}".toList = .input "chap1.aux".toList := by decide
+
+/-- `str.split(',')` as the code performs it is the comma split of the specification, which is the
+only list of comma-free parts that joins back to the string with commas. -/
+theorem C20_comma_lists (s : Str) :
+    pySplit ',' s = splitComma s ∧ joinWith [','] (splitComma s) = s ∧
+    (∀ p ∈ splitComma s, ',' ∉ p) ∧
+    (∀ parts : List Str, parts ≠ [] → (∀ p ∈ parts, ',' ∉ p) → joinWith [','] parts = s →
+      parts = splitComma s) :=
+  ⟨pySplit_eq s, splitComma_join s, splitComma_no_comma s,
+   fun parts hne hp hj => by rw [← hj, splitComma_unique parts hne hp]⟩
+
+/-! ### the denotation -/
+
+/-- The parse of a closed document of any nesting depth is exactly its denotation: either the fatal
+error of the specification, raised with everything reported so far, or the state holding the
+specification's style, data, citations and reports (`canon` is the private spelling dictionary). -/
+theorem C20_parse_spec (fs : FS) (d fuel : Nat) (p : Path)
+    (hcl : closedDepth fs d p = true) (hle : d ≤ fuel) :
+    ∃ canon, parse fs fuel p =
+      (match Spec.fatal (events fs d p) with
+       | some k => .error ⟨.aux ⟨k, p, none, none⟩, reports (events fs d p)⟩
+       | none => .ok ⟨some ⟨p, none, none⟩, style (events fs d p), data (events fs d p),
+                      citations (events fs d p), canon, reports (events fs d p)⟩) :=
+  ⟨_, parse_spec fs d fuel p hcl hle⟩
+
+/-- Reading yields exactly the keys of the `\citation` lines, in reading order, comma lists
+expanded, repeats kept, `\@input` files read in place. -/
+theorem C20_citations_spec (fs : FS) (d fuel : Nat) (p : Path) (st : St)
+    (hcl : closedDepth fs d p = true) (hle : d ≤ fuel) (h : parse fs fuel p = .ok st) :
+    st.citations = citations (events fs d p) := by
+  rw [parse_spec fs d fuel p hcl hle] at h
+  cases hf : Spec.fatal (events fs d p) with
+  | some k => rw [hf] at h; cases h
+  | none => rw [hf] at h; cases h; rfl
+
+/-- The style is the argument of the first `\bibstyle`, the data the comma-separated argument of
+the first `\bibdata`, over the in-place unfolding. -/
+theorem C20_style_data_spec (fs : FS) (d fuel : Nat) (p : Path) (st : St)
+    (hcl : closedDepth fs d p = true) (hle : d ≤ fuel) (h : parse fs fuel p = .ok st) :
+    st.style = style (events fs d p) ∧ st.data = data (events fs d p) := by
+  rw [parse_spec fs d fuel p hcl hle] at h
+  cases hf : Spec.fatal (events fs d p) with
+  | some k => rw [hf] at h; cases h
+  | none => rw [hf] at h; cases h; exact ⟨rfl, rfl⟩
+
+theorem C20_citations_spec_nonvacuous :
+    closedDepth demoFS 3 "t.aux".toList = true ∧
+    (∃ st, parse demoFS 4 "t.aux".toList = .ok st ∧
+      st.citations = ["a".toList, "B".toList, "b".toList, "a}{c".toList, "A".toList] ∧
+      st.style = some "plain".toList ∧ st.data = some ["z".toList]) := by
+  refine ⟨by decide, _, rfl, ?_⟩
+  decide
+
+theorem C20_style_data_spec_nonvacuous :
+    style (events demoFS 3 "t.aux".toList) = some "plain".toList ∧
+    data (events demoFS 3 "t.aux".toList) = some ["z".toList] := by decide
+
+/-- Every other line is ignored.  Deleting every line that is not one of the four commands from
+every file (or, read backwards, inserting such lines anywhere) changes nothing in the outcome —
+citations, style, data, the fatal error, the kind and file of every report — except the line numbers
+and line texts shown in the reports.  Line by line: such a line only moves the context. -/
+theorem C20_other_lines_ignored (fs : FS) (d fuel : Nat) (p : Path)
+    (hcl : closedDepth fs d p = true) (hle : d ≤ fuel) :
+    outcome (parse (commandLinesOnly fs) fuel p) = outcome (parse fs fuel p) ∧
+    (∀ (inp : St → Path → Except Abort St) (st : St) (c : Ctx) (l : Str) (n : Nat),
+      st.context = some c → Spec.classify l = .other →
+      parseLine inp st l n =
+        .ok { st with context := some ⟨c.filename, some n, some (strip l)⟩ }) := by
+  refine ⟨parse_strip fs d fuel p hcl hle, ?_⟩
+  intro inp st c l n hc hl
+  rw [parseLine_eq inp st c hc l n, hl]
+  simp [applyEvent]
+
+theorem C20_other_lines_ignored_nonvacuous :
+    commandLinesOnly demoFS "v.aux".toList = some ["\\citation{a}{c}".toList] ∧
+    (commandLinesOnly demoFS "t.aux".toList).map List.length = some 6 ∧
+    captured (parse demoFS 4 "t.aux".toList) ≠ captured (parse (commandLinesOnly demoFS) 4 "t.aux".toList) := by
+  decide
+
+/-! ### reports -/
+
+/-- The reports are exactly those of the specification, in order — nothing else is reported —
+whether the parse returns or ends in a fatal error. -/
+theorem C20_reports_spec (fs : FS) (d fuel : Nat) (p : Path)
+    (hcl : closedDepth fs d p = true) (hle : d ≤ fuel) :
+    captured (parse fs fuel p) = reports (events fs d p) :=
+  captured_parse fs d fuel p hcl hle
+
+/-- A second `\bibstyle` (`\bibdata`) — an event `e` of that kind with an earlier one among the
+events `pre` read before it, in whatever files — is reported with the file, line number and text of
+that line, and the first value is the one kept. -/
+theorem C20_duplicates_reported (fs : FS) (d fuel : Nat) (p : Path)
+    (hcl : closedDepth fs d p = true) (hle : d ≤ fuel)
+    (pre post : List Event) (e : Event) (hev : events fs d p = pre ++ e :: post) :
+    (∀ s s0, e.item = .bibstyle s → style pre = some s0 →
+      ⟨.anotherBibstyle, e.file, some e.lineno, some e.text⟩ ∈ captured (parse fs fuel p) ∧
+      ∀ st, parse fs fuel p = .ok st → st.style = some s0) ∧
+    (∀ ns ns0, e.item = .bibdata ns → data pre = some ns0 →
+      ⟨.anotherBibdata, e.file, some e.lineno, some e.text⟩ ∈ captured (parse fs fuel p) ∧
+      ∀ st, parse fs fuel p = .ok st → st.data = some ns0) := by
+  rw [captured_parse fs d fuel p hcl hle, hev]
+  constructor
+  · intro s s0 hi hs
+    refine ⟨mem_reports_of_split pre post e _ (by simp [reportsOf, hi, hs, located]), ?_⟩
+    intro st hst
+    rw [(C20_style_data_spec fs d fuel p st hcl hle hst).1, hev]
+    simp [style, List.findSome?_append] at hs ⊢
+    simp [hs]
+  · intro ns ns0 hi hs
+    refine ⟨mem_reports_of_split pre post e _ (by simp [reportsOf, hi, hs, located]), ?_⟩
+    intro st hst
+    rw [(C20_style_data_spec fs d fuel p st hcl hle hst).2, hev]
+    simp [data, List.findSome?_append] at hs ⊢
+    simp [hs]
+
+theorem C20_duplicates_reported_nonvacuous :
+    captured (parse demoFS 4 "t.aux".toList) =
+      [⟨.caseMismatch "b".toList "B".toList, "u.aux".toList, some 1, some "\\citation{b}".toList⟩,
+       ⟨.caseMismatch "A".toList "a".toList, "t.aux".toList, some 5, some "\\citation{A}".toList⟩,
+       ⟨.anotherBibstyle, "t.aux".toList, some 6, some "\\bibstyle{alpha}".toList⟩,
+       ⟨.anotherBibdata, "t.aux".toList, some 7, some "\\bibdata{x,y}".toList⟩] := by decide
+
+/-- A key cited in a spelling different from the spelling of its most recent citation (same key up
+to case; earlier on the same line, on an earlier line, or in another file) is reported, with both
+spellings, at the file, line number and text of the citing line. -/
+theorem C20_case_mismatch_reported (fs : FS) (d fuel : Nat) (p : Path)
+    (hcl : closedDepth fs d p = true) (hle : d ≤ fuel)
+    (pre post : List Event) (e : Event) (hev : events fs d p = pre ++ e :: post)
+    (keys k1 k2 : List Str) (k k' : Str) (hi : e.item = .citation keys) (hk : keys = k1 ++ k :: k2)
+    (hlast : lastSpelling (citations pre ++ k1) k = some k') (hne : k ≠ k') :
+    ⟨.caseMismatch k k', e.file, some e.lineno, some e.text⟩ ∈ captured (parse fs fuel p) := by
+  rw [captured_parse fs d fuel p hcl hle, hev]
+  apply mem_reports_of_split
+  simp only [reportsOf, hi, hk, mismatches_append, mismatches, hlast, List.map_append, List.mem_append,
+    List.mem_map]
+  exact Or.inr (Or.inl ⟨(k, k'), by simp [hne], rfl⟩)
+
+theorem C20_case_mismatch_reported_nonvacuous :
+    lastSpelling ["a".toList, "B".toList, "b".toList] "B".toList = some "b".toList ∧
+    lastSpelling ["a".toList, "B".toList] "c".toList = none ∧
+    mismatches ["a".toList] ["A".toList, "a".toList, "a".toList] =
+      [("A".toList, "a".toList), ("a".toList, "A".toList)] := by decide
+
+/-- Reports made after returning from nested files carry the outer file and the right line: for a
+top-level file `l1 ++ l :: l3`, whatever problem line `l` causes — given all the events read before
+it, which include the complete contents of every file the lines `l1` include — is reported with
+file `p`, line number `|l1| + 1` and the text of `l`. -/
+theorem C20_context_after_input (fs : FS) (d fuel : Nat) (p : Path)
+    (hcl : closedDepth fs (d + 1) p = true) (hle : d + 1 ≤ fuel)
+    (l1 l3 : List Str) (l : Str) (hfs : fs p = some (l1 ++ l :: l3)) (r : Report)
+    (hr : r ∈ reportsOf (lineEvents (events fs d) p l1 1) ⟨p, l1.length + 1, strip l, Spec.classify l⟩) :
+    r ∈ captured (parse fs fuel p) ∧
+    r.file = p ∧ r.lineno = some (l1.length + 1) ∧ r.line = some (strip l) := by
+  constructor
+  · rw [captured_parse fs (d + 1) fuel p hcl hle]
+    simp only [events, hfs, lineEvents_append, lineEvents]
+    rw [Nat.add_comm 1 l1.length]
+    exact mem_reports_of_split _ _ _ r hr
+  · simp only [reportsOf] at hr
+    split at hr
+    · split at hr
+      · simp only [List.mem_singleton] at hr; subst hr; exact ⟨rfl, rfl, rfl⟩
+      · cases hr
+    · split at hr
+      · simp only [List.mem_singleton] at hr; subst hr; exact ⟨rfl, rfl, rfl⟩
+      · cases hr
+    · simp only [List.mem_map] at hr
+      obtain ⟨kk, _, rfl⟩ := hr
+      exact ⟨rfl, rfl, rfl⟩
+    · cases hr
+
+/-- in `demoFS` the lines 5–7 of `t.aux` follow the `\@input` of `u.aux` (which includes `v.aux`);
+the duplicate `\bibdata` on line 7 is a duplicate only because of the `\bibdata` inside `u.aux` -/
+theorem C20_context_after_input_nonvacuous :
+    (⟨.anotherBibdata, "t.aux".toList, some 7, some "\\bibdata{x,y}".toList⟩ : Report) ∈
+      reportsOf (lineEvents (events demoFS 2) "t.aux".toList
+        ["\\relax ".toList, "\\citation{a,B}".toList, "\\bibstyle{plain}".toList,
+         "\\@input{u.aux}".toList, "\\citation{A}".toList, "\\bibstyle{alpha}".toList] 1)
+        ⟨"t.aux".toList, 7, strip "\\bibdata{x,y}".toList, Spec.classify "\\bibdata{x,y}".toList⟩ := by
+  decide
+
+/-! ### fatal errors -/
+
+/-- A document without `\bibdata` is a fatal error (raised, not reported — whatever the reporting
+mode); so is one with `\bibdata` but without `\bibstyle`; the error names the top-level file and no
+line.  A document with both parses. -/
+theorem C20_missing_fatal (fs : FS) (d fuel : Nat) (p : Path)
+    (hcl : closedDepth fs d p = true) (hle : d ≤ fuel) :
+    (data (events fs d p) = none →
+      parse fs fuel p = .error ⟨.aux ⟨.noBibdata, p, none, none⟩, reports (events fs d p)⟩) ∧
+    ((data (events fs d p)).isSome = true → style (events fs d p) = none →
+      parse fs fuel p = .error ⟨.aux ⟨.noBibstyle, p, none, none⟩, reports (events fs d p)⟩) ∧
+    ((data (events fs d p)).isSome = true → (style (events fs d p)).isSome = true →
+      ∃ st, parse fs fuel p = .ok st) := by
+  rw [parse_spec fs d fuel p hcl hle]
+  refine ⟨fun h => ?_, fun h1 h2 => ?_, fun h1 h2 => ?_⟩
+  · simp [Spec.fatal, h]
+  · cases hd : data (events fs d p) with
+    | none => simp [hd] at h1
+    | some ns => simp [Spec.fatal, hd, h2]
+  · cases hd : data (events fs d p) with
+    | none => simp [hd] at h1
+    | some ns =>
+      cases hs : style (events fs d p) with
+      | none => simp [hs] at h2
+      | some s => simp [Spec.fatal, hd, hs]
+
+theorem C20_missing_fatal_nonvacuous :
+    parse demoFS 4 "u.aux".toList = .error ⟨.aux ⟨.noBibstyle, "u.aux".toList, none, none⟩, []⟩ ∧
+    parse demoFS 4 "v.aux".toList = .error ⟨.aux ⟨.noBibdata, "v.aux".toList, none, none⟩, []⟩ := by
+  constructor <;> rfl
+
+/-! ### termination -/
+
+/-- Fuel ≥ inclusion depth suffices: for acyclic inclusion of depth ≤ `d` (included files may be
+missing) the model never runs out of fuel and its result is the same for every fuel ≥ `d`, from
+every state.  And when the files can be listed so that no file includes itself or a file listed
+before it (a topological order — exists iff inclusion is acyclic), every file has depth at most
+(number of files + 1): that fuel always suffices. -/
+theorem C20_terminates_acyclic (fs : FS) (d fuel : Nat) (p : Path) (st : St) (tl : Bool)
+    (hd : depthOk fs d p = true) (hle : d ≤ fuel) :
+    parseFile fs fuel st p tl = parseFile fs d st p tl ∧
+    (∀ a, parseFile fs fuel st p tl = .error a → a.fatal ≠ .outOfFuel) ∧
+    (∀ files : List (Path × List Str), topoOk [] files = true →
+      ∀ q, depthOk (fsOf files) (files.length + 1) q = true) := by
+  refine ⟨parseFile_fuel fs d fuel p st tl hd hle, ?_, ?_⟩
+  · rw [parseFile_fuel fs d fuel p st tl hd hle]
+    exact parseFile_noFuel fs d p st tl hd
+  · intro files ht q
+    exact topo_depth files files [] [] rfl (by simp) ht q (by simp)
+
+theorem C20_terminates_acyclic_nonvacuous :
+    depthOk demoFS 3 "t.aux".toList = true ∧ depthOk demoFS 2 "t.aux".toList = false ∧
+    topoOk [] [("t".toList, ["\\@input{u}".toList, "\\@input{v}".toList]), ("u".toList, ["\\@input{v}".toList]),
+               ("v".toList, ["\\@input{gone}".toList])] = true ∧
+    topoOk [] [("t".toList, ["\\@input{u}".toList]), ("u".toList, ["\\@input{t}".toList])] = false ∧
+    (∀ n, n ≤ 6 → depthOk (fsOf [("t".toList, ["\\@input{t}".toList])]) n "t".toList = false) := by
+  decide
+
+/-- On every file system (cyclic or not), with every fuel, from every state: the parser never
+dereferences a missing context (Python: no `AttributeError` on `self.context`), and it returns
+with a context set. -/
+theorem C20_no_internal_error (fs : FS) (fuel : Nat) (st : St) (p : Path) (tl : Bool) :
+    (∀ a, parseFile fs fuel st p tl = .error a → a.fatal ≠ .attributeError) ∧
+    (∀ s, parseFile fs fuel st p tl = .ok s → s.context.isSome = true) :=
+  parseFile_good fs fuel st p tl
+
 end Pybtex.Props
